@@ -572,17 +572,22 @@ def run_property(prop: str, tier: str, seed: int) -> int:
                 samples.append(s)
 
     meta = _static_meta(mod_name)
-    for key, hit in sorted(known_hits.items()):
-        print(f"KNOWN-FINDING: property={prop} {key}: {hit['what']}")
+    # every listed (status known) finding of this property is reported on every run; how often
+    # its carve-out was actually taken in this run is in the evidence (excluded_known)
+    for key, ent in sorted(_load_known(prop).items()):
+        print(f"KNOWN-FINDING: property={prop} {key}: {ent['what']} [carved out {ex_known.get(key, 0)} times in this run]")
     seen_sig = set()
+    reported: dict[str, str] = {}
     for v in violations:
         if v["sig"] in seen_sig:
             # the same signature found by another shard: keep one replay file only
-            try:
-                os.unlink(v["replay"])
-            except OSError:
-                pass
+            if v["replay"] != reported.get(v["sig"]):
+                try:
+                    os.unlink(v["replay"])
+                except OSError:
+                    pass
             continue
+        reported[v["sig"]] = v["replay"]
         seen_sig.add(v["sig"])
         print(f"VIOLATION property={prop} replay={v['replay']}")
         print(f"  check={v['check']} signature={v['sig']}")
